@@ -622,7 +622,11 @@ def bounded(tier, seed):
                         # after a re-index the flattened order can put a later response-less recording in front of an earlier
                         # one: it is then discarded together with the served one (consequence of KF-C52-1)
                         b.fail("replay.count_after_option_change[KF-C52-1]" if changed else "replay.count", inp, f"after request {n}: count {sp.count()} != {len(unserved)}")
-                        unserved = unserved[: sp.count()]
+                        # re-synchronise the bookkeeping with what the addon really still holds (the deviation itself has just been
+                        # reported): otherwise every later request of this history is judged against a stale expectation - e.g. a
+                        # response-less recording the addon still holds makes replay 'active', so an unmatched request is killed as
+                        # configured, which a stale empty `unserved` would mis-report as replay.unmatched_forwarded
+                        unserved = [i for i, fl_ in enumerate(flows) if any(fl_ is g for lst in sp.flowmap.values() for g in lst)]
                 b.case((recs, reqs, s1, s2), nontrivial=answered)
 
     asyncio.run(run())
